@@ -1412,3 +1412,28 @@ pub(crate) fn add_generator_dyn_product<W, R, T>(
         ))
     })
 }
+
+#[cfg(xray_verif)]
+impl<W, R, T> XGenerator<W, R, T> {
+    pub(crate) fn verif_tag(&self) -> &'static str {
+        match self {
+            Self::Aggregate { .. } => "Aggregate",
+            Self::FromSequence(..) => "FromSequence",
+            Self::SuccessorsUntil(..) => "SuccessorsUntil",
+            Self::Map(..) => "Map",
+            Self::Filter(..) => "Filter",
+            Self::Zip(..) => "Zip",
+            Self::Chain(..) => "Chain",
+            Self::Slice(..) => "Slice",
+            Self::Repeat(..) => "Repeat",
+            Self::TakeWhile(..) => "TakeWhile",
+            Self::SkipUntil(..) => "SkipUntil",
+            Self::FromSet(..) => "FromSet",
+            Self::FromMapping(..) => "FromMapping",
+            Self::WithCount { .. } => "WithCount",
+            Self::Group { .. } => "Group",
+            Self::Windows { .. } => "Windows",
+            Self::Product(..) => "Product",
+        }
+    }
+}
